@@ -517,8 +517,103 @@ def oob_case(item):
     return res
 
 
+def moved_case(item):
+    """A directory that held recorded targets is renamed and a symbolic link takes its old name (lib -> lib-v2): names recorded
+    before the move are stale, but every spelling of the file - through the link or not, relative or absolute - still has to be
+    one target: one build per change, whichever spelling asks."""
+    _, pair, j, depth, seed = item
+    pj = scen.Project({}, 'c15m')
+    top = os.path.realpath(pj.top)
+    anoms = []
+    obs = dict(command_cases=1, commands=0)
+    try:
+        lib = 'lib' if depth == 0 else 'pkg/lib'
+        new = lib + '-v2'
+        os.makedirs(os.path.join(top, lib))
+        common.write_file(os.path.join(top, 'src'), 'v0\n')
+        common.write_file(os.path.join(top, lib, 'x.do'), DO % 3)
+        env_extra = {'RV_TOP': top}
+
+        def run(argv, cwd=top, slots=None):
+            r, _ = pj.run(argv, cwd=cwd, slots=slots, extra=env_extra)
+            obs['commands'] += 1
+            for a in scen.crash_anoms(r, pj.logs_text(), 'c15'):
+                if a['cls'] == 'timeout':
+                    raise TimeoutError()
+                anoms.append(dict(key='%s:dir-moved' % a['cls'], what='%s -> %s' % (argv, a['what'][:300])))
+            return r
+        # recorded while lib is a real directory, through two spellings
+        run(['redo-ifchange', lib + '/x'])
+        run(['redo-ifchange', posixpath.join(top, lib, 'x')])
+        os.rename(os.path.join(top, lib), os.path.join(top, new))
+        os.symlink(posixpath.basename(new), os.path.join(top, lib))
+        # (the output that moved along is no longer known to redo under its new name: it would be taken for a file of the user, C11;
+        #  the user removes it, as after any reorganisation of a tree)
+        os.unlink(os.path.join(top, new, 'x'))
+        sp = [('through-link', lib + '/x'), ('new-name', new + '/x'), ('absolute-through-link', posixpath.join(top, lib, 'x')),
+              ('absolute-new-name', posixpath.join(top, new, 'x')), ('dot-slash-link', './' + lib + '/x'), ('from-inside', 'x')]
+        a, b = sp[pair[0] % len(sp)], sp[pair[1] % len(sp)]
+        clock = [int(time.time() * 1e9) + 3 * 10 ** 9]
+
+        def edit(text):
+            common.write_file(os.path.join(top, 'src'), text)
+            clock[0] += 2 * 10 ** 9
+            os.utime(os.path.join(top, 'src'), ns=(clock[0], clock[0]))
+
+        def ask(spell, **kw):
+            if spell[0] == 'from-inside':
+                return run(['redo-ifchange', 'x'], cwd=os.path.join(top, new), **kw)
+            return run(['redo-ifchange', spell[1]], **kw)
+        # (1) a change, then both spellings on one command line (or one after the other when one of them needs another cwd)
+        edit('v1 after the move\n')
+        open(pj.trace, 'w').close()
+        if 'from-inside' in (a[0], b[0]):
+            r1 = ask(a)
+            r2 = ask(b)
+            rcs = [r1.rc, r2.rc]
+        else:
+            r1 = run(['redo-ifchange', a[1], b[1]], slots=(j if j > 1 else None))
+            rcs = [r1.rc]
+        n = sum(executed(parse_trace(pj.trace_text())).values())
+        got = common.read_file(os.path.join(top, new, 'x'))
+        if any(rcs) and not anoms:
+            anoms.append(dict(key='nonzero:dir-moved', what='%s + %s after %s was renamed and linked back: exit %s: %s' % (a[1], b[1], lib, rcs, r1.err[-300:].replace('\n', ' | '))))
+        elif n != 1:
+            anoms.append(dict(key='builds-not-one:dir-moved', what='%d executions for %s and %s (one file) after one change' % (n, a[0], b[0])))
+        elif got != b'built v1 after the move\n':
+            anoms.append(dict(key='stale:dir-moved', what='content %r after exit 0' % got))
+        # (2) another change: the first spelling rebuilds, the second finds it up to date; then the reverse order
+        for rnd_, (s1, s2) in enumerate(((a, b), (b, a))):
+            if anoms:
+                break
+            edit('v%d again\n' % (rnd_ + 2))
+            open(pj.trace, 'w').close()
+            ra = ask(s1)
+            n1 = sum(executed(parse_trace(pj.trace_text())).values())
+            rb = ask(s2)
+            n2 = sum(executed(parse_trace(pj.trace_text())).values())
+            got = common.read_file(os.path.join(top, new, 'x'))
+            if ra.rc != 0 or rb.rc != 0:
+                anoms.append(dict(key='nonzero:dir-moved', what='%s then %s: exit %s, %s' % (s1[0], s2[0], ra.rc, rb.rc)))
+            elif (n1, n2) != (1, 1):
+                anoms.append(dict(key='builds-not-one:dir-moved', what='after a change %s ran %d script(s), then %s ran %d more (1 and 0 expected): the spellings are taken for different targets'
+                                  % (s1[0], n1, s2[0], n2 - n1)))
+            elif got != ('built v%d again\n' % (rnd_ + 2)).encode():
+                anoms.append(dict(key='stale:dir-moved', what='content %r after %s, %s' % (got, s1[0], s2[0])))
+    except TimeoutError:
+        return dict(verdict='inconclusive', why='watchdog without stuck witness', sample=dict(item=list(item)))
+    finally:
+        pj.close()
+    res = dict(verdict='violated' if anoms else 'held', nontrivial=True, shape=common.shash(list(item)),
+               sample=dict(kind='dir-moved', spellings=[a[0], b[0]], j=j, depth=depth), obs=obs, sets=dict(spelling_kinds=['moved:' + a[0], 'moved:' + b[0]]))
+    if anoms:
+        res['violations'] = anoms[:3]
+        res['replay'] = dict(kind='command', item=list(item))
+    return res
+
+
 def dispatch(item):
-    return {'norm': direct_norm, 'rand': direct_random, 'rel': direct_rel, 'cmd': cmd_case, 'oob': oob_case}[item[0]](item)
+    return {'norm': direct_norm, 'rand': direct_random, 'rel': direct_rel, 'cmd': cmd_case, 'oob': oob_case, 'moved': moved_case}[item[0]](item)
 
 
 RULE = ('layer A (direct calls through native/harness): normpath on every byte string over {a,b,.,/} up to length 7 (quick) / 8 (thorough) and over '
@@ -529,7 +624,7 @@ RULE = ('layer A (direct calls through native/harness): normpath on every byte s
         'realdirpath keeps the final component and canonicalises the directory part. Layer B (commands): one file, 8-12 spellings (relative, '
         'absolute, ./, //, dir/../, through two symlinked directories, symlink-then-..) from 4 working directories; two or three spellings on '
         'one command line (redo and redo-ifchange, -j1 and -j4; also while another invocation holds the lock of the target), in consecutive commands, and as a dependency declared by a consumer: exactly '
-        'one script execution, exit 0, no abort, exactly one Files row, named canonically; the consumer is rebuilt when the real file changes; out-of-band hand-over: a consumer whose script runs outside its own directory (ancestor / parent default rule, script that changes directory) asks through a spelling for a target that is only maybe out of date (above a checksummed target whose input changed, checksum kept or not): executions, bytes, one canonical Files row each, no stray rows. '
+        'one script execution, exit 0, no abort, exactly one Files row, named canonically; the consumer is rebuilt when the real file changes; out-of-band hand-over: a consumer whose script runs outside its own directory (ancestor / parent default rule, script that changes directory) asks through a spelling for a target that is only maybe out of date (above a checksummed target whose input changed, checksum kept or not): executions, bytes, one canonical Files row each, no stray rows; a directory with recorded targets is renamed and a symbolic link takes its old name (lib -> lib-v2): pairs of spellings through the link / the new name / absolute / from inside still are one target (one build per change, whichever asks first). '
         'Layer C: the same normpath / abs_path / RedoPath workloads (with the reference check inside) interpreted by Miri; in the thorough tier also the crate\'s own unit tests of helpers and state (normpath, relpath, realdirpath vectors) interpreted by Miri.')
 ASSUME = ['lexical cleaning is compared with the kernel only on symlink-free trees', 'relpath bases are physical directories (as at redo\'s call sites)',
           'paths ending in . or .. or / are not targets']
@@ -564,6 +659,10 @@ def main(tier):
             for change in ('same-checksum', 'new-checksum'):
                 for rep in range(1 if quick else 6):
                     cmd_items.append(('oob', mid_dir, consumer, rnd.randrange(13), change, rnd.choice([1, 3]), rnd.randrange(1000)))
+    pairs = [(x, y) for x in range(6) for y in range(6) if x != y]
+    for pr in (rnd.sample(pairs, 10) if quick else pairs):
+        for depth in (0, 1):
+            cmd_items.append(('moved', pr, rnd.choice([1, 3]), depth, rnd.randrange(1000)))
     rnd.shuffle(cmd_items)
     items += cmd_items
     common.ensure_native()
